@@ -325,6 +325,10 @@ def trinv2(T):
     """
     if not ishom2(T):
         raise ValueError("expecting SE(2) matrix")
+    if T.dtype.kind in 'iub':
+        # integer element type: the inverse has elements of either sign, which
+        # an unsigned (or a narrow signed) type cannot hold
+        T = T.astype(np.float64)
     # inline this code for speed, don't use tr2rt and rt2tr
     R = T[:2, :2]
     t = T[:2, 2]
